@@ -343,7 +343,7 @@ def search(index, family, seed=0, limit=400, saved=None):
     return {"found": False, "family": family, "tried": tried}
 
 
-def replayer(family, limit=400):
+def replayer(family, limit=2000):
     def fn(index, ob, seed, saved=None):
         if isinstance(saved, dict) and "input" in saved:          # `--replay <file>`: re-run exactly the recorded document
             saved = saved["input"] if saved.get("found") else None
